@@ -446,6 +446,7 @@ def run(ctx):
     if not ctx.quick:
         ctx.model_check("JointFit", "MC_JointFit_3d.cfg", timeout=3000)
     ctx.model_check("JointFit", "MC_JointFit_mut.cfg", expect_violation="IntervalOwnData")
+    ctx.model_check("JointFit", "MC_JointFit_mutw.cfg", expect_violation="IntervalOwnWeights")
     cases = gen_cases(ctx)
     allrecs, owner = [], {}
     rid = 1
